@@ -1284,3 +1284,13 @@ def m_vec_range_index(ex, c, args, m):
     if a > b: raise Panic('slice index starts at %d but ends at %d' % (a, b))
     if b > n: raise Panic('range end index %d out of range for slice of length %d' % (b, n))
     return SliceRef(v.items, a, b)
+
+@M.add(r'^(std::iter::|core::iter::)?Peekable::<.*>::peek$')
+def m_peekable_peek(ex, c, args, m):
+    import itertools
+    it = dd(args[0])
+    if not isinstance(it, It): raise Unsupported('peek on ' + type(it).__name__)
+    sent = object(); x = next(it.g, sent)
+    if x is sent: it.g = iter(()); return none()
+    it.g = itertools.chain([x], it.g)
+    cell = {'v': x}; return some(Ref(cell, 'v'))
